@@ -1,1 +1,151 @@
-From BW Require Import SpecDrift.
+(* C01 - Drift detection: a changed block forces its linked blocks to change.
+   Property theorems only; proofs are in coq/proofs.
+   The diff parser of the `unidiff` crate and blockwatch's hunk walk are modelled
+   in theories/Unidiff.v and theories/LineChanges.v; `cdiff` is the char-level
+   diff oracle (the `similar` crate). *)
+From BW Require Import Select Run.
+From BWP Require Import TextFacts Select_proofs Diff_proofs C01_proofs.
+
+(* Every added (or edited = paired) line of any hunk yields a change at its
+   new-file line number. *)
+Theorem C01_added_line_yields_change : forall cdiff hs h l lcs,
+  hunks_changes cdiff hs [] false [] = Some lcs -> In h hs -> In l (h_lines h) -> dl_kind l = KAdd ->
+  exists lc, In lc lcs /\ lc_line lc = dl_tgt l.
+Proof. exact added_line_yields_change. Qed.
+Print Assumptions C01_added_line_yields_change.
+
+(* Every recorded change stems from an added line (at its new-file number) or
+   from a removed line (whole-line change at the removed line's OLD-file number). *)
+Theorem C01_changes_sound : forall cdiff hs lcs lc,
+  hunks_changes cdiff hs [] false [] = Some lcs -> In lc lcs ->
+  exists h l, In h hs /\ In l (h_lines h) /\
+    ((dl_kind l = KAdd /\ lc_line lc = dl_tgt l) \/
+     (dl_kind l = KDel /\ lc_line lc = dl_src l /\ lc_ranges lc = None)).
+Proof. exact changes_sound. Qed.
+Print Assumptions C01_changes_sound.
+
+(* Completeness: an added/edited line strictly between the tag comments marks
+   the block modified (a paired line must differ visibly from its old text). *)
+Theorem C01_complete_added : forall cdiff hs h l lcs b,
+  hunks_changes cdiff hs [] false [] = Some lcs ->
+  In h hs -> In l (h_lines h) -> dl_kind l = KAdd ->
+  fst (b_cs b) < dl_tgt l -> dl_tgt l < fst (b_ce b) ->
+  (forall lc rs, In lc lcs -> lc_line lc = dl_tgt l -> lc_ranges lc = Some rs ->
+                 existsb (fun r => 0 <? snd r) rs = true) ->
+  content_modified b lcs = true.
+Proof. exact complete_added. Qed.
+Print Assumptions C01_complete_added.
+
+(* A run of removed lines followed by a context line contributes exactly one
+   change, at the old-file number of its first line ... *)
+Theorem C01_pure_deletion_folded : forall cdiff dels ctx rest prev acc d,
+  dl_kind ctx = KCtx -> dels <> [] -> (forall x, In x dels -> dl_kind x = KDel) -> hd_error dels = Some d ->
+  hunk_lines cdiff (dels ++ ctx :: rest) [] prev acc =
+  hunk_lines cdiff rest [] false ({| lc_line := dl_src d; lc_ranges := None |} :: acc).
+Proof. exact fold_pure_deletion. Qed.
+Print Assumptions C01_pure_deletion_folded.
+
+(* ... which marks the block whose content lines hold that number. *)
+Theorem C01_deletion_marks : forall (d : dline) b lcs,
+  In {| lc_line := dl_src d; lc_ranges := None |} lcs ->
+  fst (b_cs b) <= dl_src d -> dl_src d <= fst (b_ce b) -> content_modified b lcs = true.
+Proof. exact deletion_marks. Qed.
+Print Assumptions C01_deletion_marks.
+
+(* Known finding F2: the old-file number is not the new-file position. In the
+   witness the removed line sits between new-file lines 13 and 14 and is
+   recorded at line 11. *)
+Theorem C01_deletion_position_refuted :
+  exists f h1 c d e,
+    parse_patch f2_diff = Ok [f] /\
+    pf_hunks f = [h1; {| h_ss := 10; h_sl := 3; h_ts := 13; h_tl := 2; h_lines := [c; d; e] |}] /\
+    dl_kind c = KCtx /\ dl_kind d = KDel /\ dl_kind e = KCtx /\
+    dl_tgt c = 13 /\ dl_src d = 11 /\ dl_tgt e = 14 /\
+    line_changes_from_diff (fun _ _ => Some []) f2_diff =
+      Ok [(T "f", [ {| lc_line := 1; lc_ranges := None |};
+                    {| lc_line := 2; lc_ranges := None |};
+                    {| lc_line := 3; lc_ranges := None |};
+                    {| lc_line := dl_src d; lc_ranges := None |} ])] /\
+    dl_src d <> dl_tgt e.
+Proof. exact f2_deletion_at_old_line_number. Qed.
+Print Assumptions C01_deletion_position_refuted.
+
+(* Soundness: if every added line's new number and every removed line's
+   recorded number is far from the block (before its start tag and content, or
+   after its tag and content), the block is neither selected nor marked,
+   whatever else the diff contains. *)
+Theorem C01_sound_far : forall cdiff hs lcs b,
+  hunks_changes cdiff hs [] false [] = Some lcs ->
+  (forall h l, In h hs -> In l (h_lines h) ->
+     (dl_kind l = KAdd -> far_line b (dl_tgt l)) /\ (dl_kind l = KDel -> far_line b (dl_src l))) ->
+  tag_modified b lcs = false /\ content_modified b lcs = false.
+Proof. exact sound_far. Qed.
+Print Assumptions C01_sound_far.
+
+(* Hunk bodies are numbered as git numbers them: the i-th body line gets
+   source = start + (#removed/context before it), target = start + (#added/context before it). *)
+Theorem C01_hunk_numbering : forall ls src tgt se te i d,
+  nth_error (parse_hunk_lines ls src tgt se te) i = Some d ->
+  exists l, nth_error ls i = Some l /\
+    d = {| dl_kind := fst (classify l); dl_val := snd (classify l);
+           dl_src := src + count_src (firstn i ls); dl_tgt := tgt + count_tgt (firstn i ls) |}.
+Proof. exact parse_hunk_lines_nth. Qed.
+Print Assumptions C01_hunk_numbering.
+
+(* A printed hunk body parses back to itself (up to the early exit at the header's counts). *)
+Theorem C01_hunk_roundtrip : forall ds src tgt se te,
+  well_numbered ds src tgt ->
+  exists n, (n <= length ds)%nat /\ parse_hunk_lines (map print_dline ds) src tgt se te = firstn n ds.
+Proof. exact parse_print_hunk_prefix. Qed.
+Print Assumptions C01_hunk_roundtrip.
+
+(* Known finding F3: a hunk-body line that looks like a file header closes the
+   file; any later hunk of that file is then rejected ... *)
+Theorem C01_header_lookalike_refuted : forall l n mid hh hdr rest files f src,
+  source_header l = Some n -> Forall plain_line mid -> hunk_header hh = Some hdr ->
+  parse_lines (l :: mid ++ hh :: rest) files (Some f) src = Err E_DIFF.
+Proof. exact later_hunk_after_lookalike_rejected. Qed.
+Print Assumptions C01_header_lookalike_refuted.
+(* ... and an added line starting with "++ " is rejected at once. *)
+Theorem C01_target_lookalike_refuted : forall l n ls files f src,
+  source_header l = None -> target_header l = Some n ->
+  parse_lines (l :: ls) files (Some f) src = Err E_DIFF.
+Proof. exact lookalike_target_rejected. Qed.
+Print Assumptions C01_target_lookalike_refuted.
+
+(* Diff target paths: exactly one leading "b/" is removed (repair F5). *)
+Theorem C01_target_path_strips_once : forall s h p,
+  target_path {| pf_source := s; pf_target := T "b/" ++ p; pf_hunks := h |} = p.
+Proof. exact target_path_strips_once. Qed.
+Print Assumptions C01_target_path_strips_once.
+
+(* affects: one violation per referenced (file, name) with no modified block of
+   that name, none otherwise; unmodified blocks report nothing; only the SET of
+   modified named blocks matters. *)
+Theorem C01_affects_exact : forall nm path bc v refs sev,
+  bc_contmod bc = true ->
+  get_attr (T "affects") (b_attrs (bc_block bc)) = Some v ->
+  parse_affects_attribute v = Ok refs ->
+  sev_of (b_attrs (bc_block bc)) = Ok sev ->
+  affects_block nm path bc =
+    Ok (map (fun r => tag_diag (bc_block bc) V_AFFECTS sev [fst r; snd r])
+            (filter (fun r => negb (mem_pair r nm)) (map (resolve_ref path) refs))).
+Proof. exact affects_block_exact. Qed.
+Print Assumptions C01_affects_exact.
+
+Theorem C01_affects_unmodified : forall nm path bc,
+  bc_contmod bc = false -> affects_block nm path bc = Ok [].
+Proof. exact affects_block_unmodified. Qed.
+Print Assumptions C01_affects_unmodified.
+
+Theorem C01_affects_modified_set : forall ctx f n,
+  In (f, n) (named_modified ctx) <->
+  exists fc bc, In fc ctx /\ In bc (fc_blocks fc) /\ bc_contmod bc = true /\ fc_path fc = f /\
+                get_attr (T "name") (b_attrs (bc_block bc)) = Some n.
+Proof. exact named_modified_spec. Qed.
+Print Assumptions C01_affects_modified_set.
+
+Theorem C01_affects_set_only : forall nm1 nm2 path bc,
+  (forall x, In x nm1 <-> In x nm2) -> affects_block nm1 path bc = affects_block nm2 path bc.
+Proof. exact affects_block_set_ext. Qed.
+Print Assumptions C01_affects_set_only.
